@@ -62,6 +62,21 @@ class TracepointConfigService:
         self._update_lock = threading.Lock()
         self._custom_lock = threading.Lock()
 
+    def reinstall(self):
+        """
+        Have everything installed anew: called when the agent is started.
+
+        An agent that is shut down drops the tracepoints it acts on. What the service has sent before is forgotten
+        here, hash included - the next poll reports no current config and is answered with the whole of it, instead
+        of 'no change' to a config nobody acts on any more. The tracepoints registered in code are installed now.
+        """
+        old_hash = self._current_hash
+        old_config = self._tracepoint_config
+        self._current_hash = None
+        self._tracepoint_config = []
+        if old_hash is not None or len(old_config) > 0 or len(self._custom) > 0:
+            self.__trigger_update(old_hash, old_config)
+
     def update_no_change(self, ts):
         """
         Update no change detected.
